@@ -1,20 +1,44 @@
 #!/bin/bash
-# run_all_seeds.sh : apply every seeded change in turn, run the quick check of its property, record the verdict
+# run_all_seeds.sh [seed-name ...] : apply every seeded change (or the named ones) in turn, run the quick check of its
+# property, record the verdict in seeded/RESULTS.tsv (rows of seeds not run are kept)
 cd /verif
 out=seeded/RESULTS.tsv
-echo -e "seed\tproperty\texit\tverdict" > $out
-for d in seeded/C*/; do
-  name=$(basename $d); id=${name%%-*}
-  ( cd /repo && git apply /verif/$d/patch.diff ) || { echo -e "$name\t$id\t-\tpatch does not apply" >> $out; continue; }
+tmp=$(mktemp)
+if [ $# -gt 0 ]; then names="$@"; else names=$(cd seeded && ls -d C*/ | tr -d /); fi
+for name in $names; do
+  d=seeded/$name; id=${name%%-*}
+  ( cd /repo && git apply /verif/$d/patch.diff ) || { printf '%s\t%s\t-\tpatch does not apply\t\n' "$name" "$id" >> $tmp; continue; }
   log=$(./check $id quick 2>&1); rc=$?
   git -C /repo checkout -- .
-  v=$(echo "$log" | grep "^VIOLATION" | head -1)
-  first=$(echo "$log" | grep -m1 "^property $id fails\|^PROOF\|^proof\|no-failing-input" | cut -c1-160)
+  v=$(echo "$log" | grep -a "^VIOLATION" | head -1)
+  first=$(echo "$log" | grep -a -m1 "^property $id fails\|^PROOF\|^proof\|no-failing-input" | cut -c1-160 | tr '\t\r\n\\' '    ')
   kind="concrete input"
   echo "$v" | grep -q "no-failing-input-found" && kind="no-failing-input-found"
   [ -z "$v" ] && kind="NOT DETECTED"
-  echo -e "$name\t$id\t$rc\t$kind\t$first" >> $out
+  printf '%s\t%s\t%s\t%s\t%s\n' "$name" "$id" "$rc" "$kind" "$first" >> $tmp
 done
+# merge: new rows replace old rows of the same seed
+python3 - "$out" "$tmp" <<'PY'
+import sys
+out, tmp = sys.argv[1], sys.argv[2]
+rows = {}
+try:
+    for ln in open(out, errors="replace").read().splitlines()[1:]:
+        p = ln.split("\t")
+        if len(p) >= 4 and p[0].startswith("C"):
+            rows[p[0]] = ln
+except FileNotFoundError:
+    pass
+for ln in open(tmp, errors="replace").read().splitlines():
+    p = ln.split("\t")
+    if len(p) >= 4:
+        rows[p[0]] = ln
+with open(out, "w") as f:
+    f.write("seed\tproperty\texit\tverdict\tfirst report\n")
+    for k in sorted(rows):
+        f.write(rows[k] + "\n")
+PY
+rm -f $tmp
 # leave evidence of the clean tree behind
-for i in 01 02 03 04 05 06 07 08 09 10 11 12 13 14 15 16 17 18 19 20; do ./check C$i quick >/dev/null 2>&1 || echo "WARNING clean C$i failed" >> $out; done
-echo done >> $out
+for i in $(echo $names | tr ' ' '\n' | sed 's/-.*//' | sort -u); do ./check $i quick >/dev/null 2>&1 || echo "WARNING clean $i failed"; done
+echo done
